@@ -12,7 +12,7 @@ RULE = ('programs of 2-3 threads over Add / Delete(oldest-first, possibly reachi
         'every schedule within the preemption bound; plus all sequential programs up to the length bound; a program is non-trivial when its schedules produce >=2 distinct observations')
 
 def build():
-    ov = vlib.make_overlay('c08', harness=['outputstream'], engines=['vsync'], rewrite_sync=['internal/outputstream/outputstream.go'])
+    ov = vlib.make_overlay('c08', harness=['outputstream'], engines=['vsync'], rewrite_sync=['internal/outputstream/outputstream.go'], rewrite_harness=[('outputstream', 'export.go')])
     return vlib.build_test('./internal/outputstream', os.path.join(vlib.BUILD, 'c08.test'), ov)
 
 def prebuild():
